@@ -18,7 +18,9 @@ RULE = ("for every class with a hand-written __eq__/__hash__ (52 constructors in
         "instances are generated from JSON descriptions through the public constructors (each optional parameter omitted "
         "with p~0.3, all omitted with p=0.2; reals on a 1/16 grid, short decimals, arbitrary doubles and 10^3..10^5 magnitudes; "
         "id sets with members k, k+8, k+16 that collide in CPython's set tables); one case = one instance with its battery: "
-        "itself, deepcopy, an independently built twin, every set/dict insertion order permuted (all sets at all depths at "
+        "itself, deepcopy, an independently built twin, the same twin after a read-only history (every public property, str/repr/"
+        "hash, the queries by time step / id / point on it and on all nested objects) against x and against its earlier deepcopy, "
+        "every set/dict insertion order permuted (all sets at all depths at "
         "once), and EVERY constructor parameter changed alone to another valid value (reals by 1.7e-10 .. 1), plus "
         "correspondence-only probes (2e-11 shifts, None vs empty container, reversed lists, shifted trajectory) and, for the "
         "hashability model, 3 ill-typed probes per instance (one constructor argument replaced by None / [1] / [[1]] / "
@@ -46,7 +48,8 @@ TRUSTED = ["harness/c12_specs.py: JSON description -> object builders and the tw
 REQUIRED_BUCKETS = ["cls:" + c for c in S.CLASSES] + ["pair:self", "pair:deepcopy", "pair:twin", "pair:permuted", "pair:perturbed",
                                                         "defaults-only", "probe:sub-threshold", "probe:none-vs-empty",
                                                         "probe:reversed-list", "table-row", "hash:well-typed",
-                                                        "illtyped:raises", "illtyped:completes"]
+                                                        "illtyped:raises", "illtyped:completes", "pair:after-reads", "pair:after-reads:deepcopy",
+                                                        "history:reads"]
 WORKERS = {"quick": 4, "thorough": 8}
 
 QUICK_PER_CLASS = 48
@@ -127,7 +130,7 @@ def make_battery(ctx, dx, x):
     r = ctx.rng
     cls = clsname(dx)
     spec = S.SPECS[cls]
-    out = [Pair("twin", dx, demand="equal")]
+    out = [Pair("twin", dx, demand="equal"), Pair("after-reads", dx, demand="equal")]
     dk = S.reorder_kwargs(r, dx)
     if dk:
         out.append(Pair("reordered-kwargs", dk, demand="equal"))
@@ -203,7 +206,8 @@ def oracle_pair(ctx, cls, dx, dy, x, y, ob, kind, attr, demand):
         fail(ctx, f"{site}/ne-inconsistent", f"x == y is {e1} and x != y is {ne}", cls, dx, dy, attr, kind)
     if demand == "equal" and not (e1 and e2):
         k = {"self": "not-reflexive", "deepcopy": "deepcopy-unequal", "twin": "identical-values-unequal",
-             "permuted": "set-order-dependent", "reordered-kwargs": "kwargs-order-dependent"}[kind]
+             "permuted": "set-order-dependent", "reordered-kwargs": "kwargs-order-dependent",
+             "after-reads": "changed-by-reads/vs-untouched-twin", "after-reads:deepcopy": "changed-by-reads/vs-earlier-deepcopy"}[kind]
         fail(ctx, f"{site}/{k}", f"{cls}: {kind} partner compares unequal (x==y {e1}, y==x {e2})", cls, dx, dy, attr, kind)
     if demand == "unequal" and (e1 or e2):
         fail(ctx, f"{site}/perturbation-undetected/{attr}",
@@ -227,7 +231,8 @@ def run_case(ctx, dx, only=None):
     ctx.case(dx)
     if only is not None and only.get("kind") not in (None, "self", "deepcopy", "hash"):
         pairs = [Pair(only["kind"], only["y"], only.get("attr"),
-                      {"twin": "equal", "permuted": "equal", "reordered-kwargs": "equal", "perturbed": "unequal"}.get(only["kind"]))]
+                      {"twin": "equal", "permuted": "equal", "reordered-kwargs": "equal", "perturbed": "unequal",
+                       "after-reads": "equal", "after-reads:deepcopy": "equal"}.get(only["kind"]))]
         objs = []
     else:
         xc = call(copy.deepcopy, x)
@@ -237,19 +242,33 @@ def run_case(ctx, dx, only=None):
             objs.append(("deepcopy", xc[1], dx, None, "equal"))
         else:
             fail(ctx, f"C12/{cls}/deepcopy-raises/{xc[1]}", f"deepcopy raises {xc[2]}", cls, dx, None, None, "deepcopy")
+    lefts = {}
     for p in pairs:
         y = try_build(p.y_desc)
         if y is None:
             continue
+        if p.kind.startswith("after-reads"):
+            # HISTORY: an identically built object is looked at (every public property, str/repr/hash, the ordinary queries
+            # by time step / id / point, on it and on everything reachable from it) and is then compared with the untouched
+            # x and with the deepcopy taken of it before the reads: read-only use must not change what == and hash see
+            yc = call(copy.deepcopy, y)
+            if S.read_only_history(y) > 0:
+                ctx.tag("history:reads")
+            objs.append(("after-reads", y, p.y_desc, None, "equal"))
+            if yc[0] == "ok":
+                objs.append(("after-reads:deepcopy", y, p.y_desc, None, "equal"))
+                lefts[len(objs) - 1] = yc[1]
+            continue
         objs.append((p.kind, y, p.y_desc, p.attr, p.demand))
     ex = S.encode(x)
     enc_pairs, obs = [], []
-    for kind, y, dy, attr, demand in objs:
+    for i, (kind, y, dy, attr, demand) in enumerate(objs):
         ctx.tag("pair:" + kind if not kind.startswith("probe") else kind)
-        ob = observe(x, y)
+        left = lefts.get(i, x)
+        ob = observe(left, y)
         obs.append(ob)
-        enc_pairs.append((ex, S.encode(y)))
-        oracle_pair(ctx, cls, dx, dy, x, y, ob, kind, attr, demand)
+        enc_pairs.append((ex if left is x else S.encode(left), S.encode(y)))
+        oracle_pair(ctx, cls, dx, dy, left, y, ob, kind, attr, demand)
     hash_correspondence(ctx, cls, dx, x, objs, obs, only)
     # correspondence: the model's verdicts for == and for "hash keys agree" on the same pairs
     model = model_pairs(ctx, enc_pairs)
